@@ -15,6 +15,16 @@ Bounded-exhaustive exploration (ShapeExplorer) of four finite grids against the 
   part C  generate_probable_prime / generate_probable_safe_prime / getPrime / getStrongPrime on explicit
           entropy tapes: exact bit size, primality by the reference, refusal of undersized requests
   part D  legacy number.ceil_div / size / GCD / inverse on V x V and a small box
+
+The thorough tier additionally enumerates (all complete, see _deep_grid and the constants of _c14_int / _c14_prim):
+EVERY operand bit size 1..4160, EVERY modulus bit length 2..640, word counts up to 129 and five more limb patterns per
+word count, EVERY exponent 0..4095, every (exponent, modulus) byte-length pair up to 48 x 48, single-limb terms at every
+pair of limb positions, the curve primes with every 32-bit limb pattern, Tonelli-Shanks for every 2-adicity 1..64 and
+every prime size 3..256 in every class mod 8, all residues modulo EVERY modulus up to 400; primality on [0, 2^18), all
+bases below 3072, every square below 2^24, composites and primes around every boundary of the Miller-Rabin iteration
+table (up to 3701 bits), isPrime's false_positive_prob; prime generation for every size 160..400 (and around the table
+boundaries up to 2048 bits) under all three back-ends, getPrime for every size 2..320, getStrongPrime for every
+documented size x four e.
 """
 import time
 
@@ -53,6 +63,20 @@ def worker(shards):
     return acc
 
 
+def all_shards(q):
+    """every shard of the run, heaviest kinds first (child processes, primality, integers, generation, legacy)"""
+    gen = P.gen_shards(q)
+    nV = len(A.alphabet(q))
+    shards = [[("sub", cfg, b)] for b in P.child_shards(q) for cfg in S.CONFIGS]
+    shards += [[s] for s in P.prim_shards(q)]
+    shards += [[s] for s in A.int_shards(q)]
+    shards += [c for c in chunks(gen, 24 if q else 96)]
+    shards += [[("legacy", "grid", i, q)] for i in range(nV)]
+    shards += [[("legacy", "box", q)]] if q else [[("legacy", "box", i, P.LEGACY_BOX_SHARDS, q)]
+                                                  for i in range(P.LEGACY_BOX_SHARDS)]
+    return shards
+
+
 def run(ctx):
     q = ctx.quick
     a = ctx.acc
@@ -85,14 +109,7 @@ def run(ctx):
         ctx.pmap(worker, shards)
         phases[name] = round(time.time() - t, 1)
 
-    gen = P.gen_shards(q)
-    nV = len(A.alphabet(q))
-    shards = [[("sub", cfg, b)] for b in P.child_shards(q) for cfg in S.CONFIGS]
-    shards += [[s] for s in P.prim_shards(q)]
-    shards += [[s] for s in A.int_shards(q)]
-    shards += [c for c in chunks(gen, 24 if q else 64)]
-    shards += [[("legacy", "grid", i, q)] for i in range(nV)] + [[("legacy", "box", q)]]
-    timed("all", shards)
+    timed("all", all_shards(q))
 
     # ---- vacuity guards -----------------------------------------------------------------------------
     d = a.distinct
@@ -119,13 +136,15 @@ def run(ctx):
     ctx.require(any(x[0] == "lucas" for x in legit) and any(x[0] == "mr" for x in legit),
                 "no pseudoprime passed its own single test: the adversarial families/tapes are not adversarial "
                 "(legit passes: %s)" % sorted(legit))
-    ctx.require(set(d.get("families", ())) == set(P.FAMILIES), "families missing: %s"
-                % sorted(set(P.FAMILIES) - set(d.get("families", ()))))
-    ctx.require(a.n.get("family_members", 0) >= (300 if q else 900), "fewer adversarial composites than expected (%d)"
+    ctx.require(set(d.get("families", ())) == set(P.families(q)), "families missing: %s"
+                % sorted(set(P.families(q)) - set(d.get("families", ()))))
+    ctx.require(a.n.get("family_members", 0) >= (300 if q else 25000), "fewer adversarial composites than expected (%d)"
                 % a.n.get("family_members", 0))
-    ctx.require(a.n.get("range_composites_with_liars", 0) >= (300 if q else 2000),
+    ctx.require(a.n.get("range_composites_with_liars", 0) >= (300 if q else 4000),
                 "too few composites of the exhaustive range have a liar tape")
-    ctx.require(a.n.get("prim_allbases", 0) >= (10000 if q else 1000000), "all-bases Miller-Rabin sweep too small")
+    ctx.require(a.n.get("prim_allbases", 0) >= (10000 if q else 2500000), "all-bases Miller-Rabin sweep too small")
+    if not q:
+        _deep_guards(ctx, d, pc)
     sb = dict(d.get("sub_backends", ()))
     ctx.coverage_extra["primality_backends"] = dict(sb, default=selected)
     ctx.require(set(sb) == set(S.CONFIGS), "primality child processes did not all run: %s" % sb)
@@ -142,7 +161,15 @@ def run(ctx):
     gc = d.get("gen_classes", set())
     ctx.require(any(c[1] == "refused" and not c[2] for c in gc) and any(c[1] == "generated" for c in gc),
                 "prime generation: no refusal or no generated prime observed")
-    ctx.require(len(d.get("gen_sizes", ())) >= (40 if q else 100), "prime generation: too few (function, size) pairs")
+    gs = d.get("gen_sizes", ())
+    ctx.require(len(gs) >= (40 if q else 3 * len(P.GEN_BITS_FULL) + len(P.GETPRIME_BITS) + 3 * len(P.GEN_SAFE_BITS) + 8),
+                "prime generation: too few (function, size, configuration) triples (%d)" % len(gs))
+    if not q:
+        for cfg in ("default",) + S.CONFIGS:
+            miss = [b for b in P.GEN_BITS_FULL if ("generate_probable_prime", b, cfg) not in gs]
+            ctx.require(not miss, "generate_probable_prime under %s: no prime generated for the sizes %s" % (cfg, miss[:8]))
+        ctx.require(all(("getStrongPrime", b, "default") in gs for b in (512, 640, 768, 896, 1024, 2048)),
+                    "getStrongPrime: not every size produced a prime")
     lc = d.get("legacy_classes", set())
     ctx.require(set(c[2] for c in lc) >= {"v", "ValueError", "ZeroDivisionError"}, "legacy helpers: outcome classes %s"
                 % sorted(set(c[2] for c in lc)))
@@ -156,47 +183,73 @@ def run(ctx):
         "primality_backend": selected,
         "grid": {
             "A-integers": {
-                "backends": names, "operand_alphabet_size": len(Vv), "k": list(I.KS_QUICK if q else I.KS_FULL) + [16],
+                "backends": names, "operand_alphabet_size": len(Vv), "k": list(A.KS_QUICK if q else A.KS_FULL) + [16],
                 "operations": len(A.OPS), "binary_ops_on_all_ordered_pairs": len(A.BIN_OPS),
                 "operand_forms": ["Integer", "int", "aliased (same object, diagonal pairs)"],
                 "small_box": "all pairs of [-%d, %d] x binary ops, shifts -2..12, pow 0..12" % (A.SMALL_R[q], A.SMALL_R[q]),
+                "small_boxes_complete": {k: "%d..%d" % (v[0 if q else 1][0], v[0 if q else 1][-1]) for k, v in A.BOX.items()},
                 "moduli_word_counts": list(A.WORDS_QUICK if q else A.WORDS_FULL), "moduli_per_word_count": 6,
                 "moduli_total": len(A.moduli_all(q)), "shift_counts": list(A.SHIFTS),
-                "sqrt_mod": "all residues -2..p+1 modulo every prime < 200 and 17 non-prime moduli; %d seeded residues "
+                "sqrt_mod": "all residues -2..p+1 modulo %s; %d seeded residues "
                             "(and squares, negated squares) modulo each of %d curve primes"
-                            % (6 if q else 24, len(A.CURVE_PRIMES)),
-                "isqrt_range": "every n < 2^%d" % (13 if q else 16),
+                            % ("every prime < 200 and 17 non-prime moduli" if q else
+                               "EVERY modulus -2..%d, prime or not" % A.SQRT_BOX_TOP, 6 if q else 24, len(A.CURVE_PRIMES)),
+                "isqrt_range": "every n < 2^%d" % (13 if q else 17),
                 "cases": a.n.get("int_cases", 0), "pow_cost_restriction_skipped": a.n.get("int_pow_skipped_cost", 0),
-                "soft_mismatches_outside_documented_domain": a.n.get("int_soft_mismatches", 0)},
+                "soft_mismatches_outside_documented_domain": a.n.get("int_soft_mismatches", 0),
+                "thorough_only_dimensions": None if q else _deep_grid(d)},
             "B-primality": {
-                "range": "every n in [0, 2^%d) x (lucas, tpp x 2-3 tapes, mr x 3-4 (iterations, tape), isPrime)"
-                         % (13 if q else 17),
-                "all_bases": "every odd n < %d x every base in [2, n-2], one round" % (256 if q else 2048),
-                "families": list(P.FAMILIES), "family_members": a.n.get("family_members", 0),
+                "range": "every n in [0, 2^%d) x (lucas, tpp x 2-3 tapes, mr x 3-4 (iterations, tape), isPrime)%s"
+                         % (13 if q else 18, "" if q else "; the child processes (other two back-ends) cover [0, 2^17)"),
+                "all_bases": "every odd n < %d x every base in [2, n-2], one round%s"
+                             % (256 if q else P.ALLBASES_TOP, "" if q else " (child processes: n < 1024)"),
+                "families": list(P.families(q)), "family_members": a.n.get("family_members", 0),
+                "family_squares": None if q else "every k^2, 2 <= k < %d (k prime or not)" % P.SQUARES_TOP,
+                "family_mr_table": None if q else
+                    "boundaries %s of test_probable_prime's iteration table: for each size B-1, B, B+1 a product of two "
+                    "adjacent primes of exactly that size, the square of its smaller factor, and (prime list) the first "
+                    "prime of exactly that size; plus the Mersenne primes M2281..M4423 above the last boundary"
+                    % (list(P.MR_TABLE),),
+                "big_primes": len(P.big_prime_specs(q)),
                 "tapes": {"test_probable_prime": list(P.TPP_STRATS), "miller_rabin_test(iterations, tape)": list(P.MR_GRID),
-                          "isPrime": ["small", "seed0", "liar"],
+                          "isPrime": ["small", "seed0", "liar"] if q else
+                                     ["small", "seed0", "liar", "false_positive_prob 0.3 (1 round) x small, liar",
+                                      "false_positive_prob 1e-30 (50 rounds) x seed0, liar/top"],
                           "meaning": "small = 2,3,5,7,..; seedN = SHAKE256(VERIF_SEED)-derived bases in [2,n-2]; top = "
                                      "n-2,n-3,..; liar = strong liars of n found by the reference (cycled)"},
                 "cases": a.n.get("prim_cases", 0) + a.n.get("prim_allbases", 0),
                 "primes_accepted": a.n.get("prim_primes_accepted", 0),
                 "composites_rejected": a.n.get("prim_composites_rejected", 0),
                 "legitimate_pseudoprime_passes": a.n.get("prim_legit_pseudoprime_passes", 0)},
-            "C-generation": {"cases": a.n.get("gen_cases", 0),
-                             "generate_probable_prime_bits": P.GEN_BITS_QUICK if q else P.GEN_BITS_FULL,
-                             "tapes_per_size": 1 if q else 4},
-            "D-legacy": {"cases": a.n.get("legacy_cases", 0)},
+            "C-generation": dict({"cases": a.n.get("gen_cases", 0),
+                                  "generate_probable_prime_bits": P.GEN_BITS_QUICK if q else
+                                  "every size 160..400 and %s" % (P.GEN_BITS_FULL[241:],),
+                                  "tapes_per_size": 1 if q else "%d up to 400 bits, %d up to 1201 bits, 1 above"
+                                                                     % (P.GEN_TAPES_FULL, P.GEN_TAPES_BIG)},
+                                 **({} if q else {
+                                     "prime_filter_bits": list(P.GEN_FILTER_BITS), "safe_prime_bits (2 tapes)": list(P.GEN_SAFE_BITS),
+                                     "getPrime_bits (2 tapes)": "every size 2..320 and %s" % (P.GETPRIME_BITS[319:],),
+                                     "getStrongPrime (bits, e)": [list(x) for x in P.STRONG_GRID],
+                                     "distinct (function, size, back-end configuration) with a generated prime": len(gs)})),
+            "D-legacy": {"cases": a.n.get("legacy_cases", 0),
+                         "box": "all pairs of %d..%d" % (P.LEGACY_BOX[0 if q else 1][0], P.LEGACY_BOX[0 if q else 1][-1]),
+                         "word_moduli": None if q else "inverse/GCD/ceil_div against the 6+5 limb patterns of every word count "
+                                                       "1..33 and %s" % (list(A.WORDS_BIG),)},
         },
     })
     ctx.assume("operand VALUES are limited to the boundary alphabet V (0, +-1, +-2, +-(2^k-1), +-2^k, +-(2^k+1), seeded "
                "300/1100/2100-bit values), the complete small boxes and the structured/seeded moduli; only shapes (sizes, "
-               "signs, word counts, operand forms) are enumerated completely")
+               "signs, word counts, operand forms) are enumerated completely%s"
+               % ("" if q else "; the every-size sweeps of the thorough tier use +-(2^k-1), +-2^k, +-(2^k+1) per size and "
+                               "structured (all-ones, sparse, single-limb) or seeded values per modulus"))
     ctx.assume("only VALUES are compared (int(result), bytes, truth value); result types (int vs Integer, bool vs int, "
                "self vs None) and exception messages are not - type agreement between back-ends is property C16")
     ctx.assume("a zero modulus/divisor must raise ZeroDivisionError, every other undefined case ValueError (the classes "
                "the three back-ends use for these cases); operands violating two rules may raise either")
     ctx.assume("modular pow with an exponent above 66 bits is crossed only with selected bases and the core moduli (1, 2, "
-               "17 words in quick; 1..33 words by powers of two in thorough), exponents above %s with moduli of at most "
-               "%s (cost bound; counted in pow_cost_restriction_skipped)" % (("130 bits", "4") if q else ("600 bits", "1100 bits")))
+               "17 words in quick; 1..33 words by powers of two in thorough)%s"
+               % (", exponents above 130 bits with moduli of at most 4 (cost bound; counted in pow_cost_restriction_skipped)"
+                  if q else "; word counts above 33 (up to 129) meet exponents up to 65 bits and one full-size exponent"))
     ctx.assume("left shifts by more than 70000 bits are not executed (result size); operands wider than 65536 bits are "
                "used only for right shifts, get_bit and size_in_bits")
     ctx.assume("size_in_bits(0) = size_in_bytes(0) = 1 is taken as the library's convention; get_bit / "
@@ -206,7 +259,9 @@ def run(ctx):
     ctx.assume("Primality and prime generation run on the back-end selected by Crypto.Math.Numbers (%s) in the driver "
                "process and are repeated in child processes under PYCRYPTODOME_DISABLE_GMP=1 (%s) and with the GMP and "
                "custom modules made unimportable (%s)%s" % (selected, sb.get("nogmp"), sb.get("native"),
-               "; in quick the children cover [0, 2^12), all families, the prime list and 4 generation sizes" if q else ""))
+               "; in quick the children cover [0, 2^12), all families, the prime list and 4 generation sizes" if q else
+               "; the children cover [0, 2^17), all bases below 1024, all families, the prime list and every "
+               "generate_probable_(safe_)prime case"))
     ctx.assume("primes above 3.3e24 (generated primes, large members of the prime list) are certified by mc.ref.nt.is_prime = "
                "13 fixed Miller-Rabin bases + strong Lucas (no known counterexample), not by a primality proof")
     ctx.assume("a composite declared probably prime is accepted as the algorithm's documented error case only when EVERY "
@@ -215,6 +270,80 @@ def run(ctx):
     ctx.assume("getStrongPrime draws its Miller-Rabin bases from the system RNG (randfunc is not forwarded): only size, "
                "primality and coprimality to e of its result are checked, not determinism")
     ctx.assume("Integer.random / random_range are not covered here (C18)")
+
+
+def _deep_grid(d):
+    """description of the thorough-only integer dimensions (all complete enumerations)"""
+    return {
+        "operand_bit_sizes": "EVERY k in 1..%d: +-(2^k-1), +-2^k, +-(2^k+1) x 15 unary operations (sqrt and is_perfect_square "
+                             "of the positive values: every k <= %d, above it k = 64w-1, 64w, 64w+1 only), to_bytes (lengths 0, "
+                             "need-1, need, need+1, next multiple of 8, +8; both orders), from_bytes (0/1/8 leading zero "
+                             "bytes; 3 buffer types), shifts and get_bit by 1, 63, 64, 65, k-1, k, k+1"
+                             % (A.BITS_TOP, A.BITS_SQRT_TOP),
+        "operand_bit_sizes_binary": "every k in 1..%d and 64w-1, 64w, 64w+1 for every word count w <= %d (%d sizes) x the six "
+                                    "values x 30 binary operators x partners (1, -65536, 2^32+1, -(2^64-1), (a>>1)|1, a "
+                                    "seeded odd value of the same size, negation, itself/aliased) in both orders, Integer "
+                                    "and int right operands"
+                                    % (A.BITS_BIN_TOP, A.BITS_TOP // 64, len(A.bits_bin_sizes())),
+        "modulus_bit_lengths": "EVERY bit length 2..%d (every byte length 1..%d, every top-bit position) x 5 moduli (all-ones, "
+                               "sparse, seeded odd; 2^n-2, 2^(n-1) even) x 10 bases x 21 exponents (0..3, 15..17, 255..257, "
+                               "65535..65537, 2^64-1, 2^64, (m-1)/2, m-1, m, 2^n+1, seeded n and n+72 bits) for pow; 10x10 "
+                               "terms for _mult_modulo_bytes; 8 values for inverse" % (A.MODBITS_TOP, A.MODBITS_TOP // 8),
+        "word_counts_beyond_33": {"words": list(A.WORDS_BIG), "moduli_per_word_count": "6 + 5 limb patterns",
+                                  "bases": 14, "exponents": 15, "full_size_exponent": "m-1 on the 4 principal patterns"},
+        "further_limb_patterns": "5 more modulus patterns (low limb 1, top limb 1, zero middle limbs, even with zero low "
+                                 "limb, seeded with 8-bit top limb) for every word count 1..33 x 14 bases x every exponent of "
+                                 "V up to 66 bits; 10x10 terms for _mult_modulo_bytes",
+        "exponent_sweep": "EVERY exponent 0..%d (all triples of 4-bit window digits) x %d moduli (1..17 words, curve "
+                          "primes, even) x 4 bases" % (A.EXP_SWEEP_TOP - 1, len(A.exp_sweep_moduli())),
+        "exponent_x_modulus_byte_lengths": "every pair of 1..%d x 1..%d bytes x 4 exponents x 3 moduli x 3 bases"
+                                           % (A.EXPLEN_TOP, A.EXPLEN_TOP),
+        "limb_position_pairs": "word counts 1..%d: terms 1, 2^63, 2^64-1 in limb i and 2^(64(i+1))-1, ALL ordered pairs of "
+                               "terms x every odd modulus pattern (_mult_modulo_bytes); squares, cubes, 17th powers"
+                               % A.LIMB_WORDS,
+        "curve_prime_limbs": "7 curve primes: terms with one 32-bit limb set / all-ones / cleared at every position, ALL "
+                             "ordered pairs (_mult_modulo_bytes), pow with 2, 3, (p-1)/2, p-2, inverse; the odd neighbours "
+                             "p-2, p+2 (generic reduction at the same size): 14 bases x 10 exponents, 10x10 terms",
+        "tonelli_shanks": "primes c*2^s+1 of EVERY 2-adicity s = 1..%d and the first prime of every bit size 3..%d in every "
+                          "class mod 8 x 7 fixed + 9 seeded residues" % (A.TWO_ADICITY_TOP, A.SQRT_BITS_TOP),
+        "shift_box": "every count / bit index -1..%d x every value of V below 130 bits" % A.SHIFT_BOX,
+        "from_bytes_lengths": "every length 0..300 x 6 patterns x both orders",
+        "pow_wide_exponents": "no cost restriction: every exponent of V above 66 bits x 14 bases x every core modulus",
+        "values_enumerated": {k: len(set(v for dd, v in d.get("int_dims", ()) if dd == k))
+                              for k in sorted(set(dd for dd, _ in d.get("int_dims", ())))},
+    }
+
+
+def _deep_guards(ctx, d, pc):
+    """the dimensions of the thorough tier were enumerated completely (sets of the values actually executed)"""
+    dims = {}
+    for dim, val in d.get("int_dims", ()):
+        dims.setdefault(dim, set()).add(val)
+    want = {
+        "bits": set(range(1, A.BITS_TOP + 1)), "bits-bin": set(A.bits_bin_sizes()),
+        "bits-sqrt": set(k for k in range(1, A.BITS_TOP + 1) if k <= A.BITS_SQRT_TOP or (k + 1) % 64 <= 2),
+        "modbits": set(range(2, A.MODBITS_TOP + 1)), "words-big": set(A.WORDS_BIG), "patterns": set(A.WORDS_FULL),
+        "exp-sweep": set(A.exp_sweep_moduli()), "limbs": set(range(1, A.LIMB_WORDS + 1)),
+        "explen": set((i, j) for i in range(1, A.EXPLEN_TOP + 1) for j in range(1, A.EXPLEN_TOP + 1)),
+        "curve-limbs": set(n for n, _ in A.CURVE_PRIMES), "sqrt-2-adicity": set(range(1, A.TWO_ADICITY_TOP + 1)),
+        "shift-box": set(range(-1, A.SHIFT_BOX + 1)), "conv-sweep": set(range(0, 301)),
+    }
+    for dim, w in want.items():
+        ctx.require(dims.get(dim, set()) == w, "thorough dimension %s: %d of %d values were enumerated"
+                    % (dim, len(dims.get(dim, ())), len(w)))
+    sb = dims.get("sqrt-bits-class", set())
+    ctx.require(len(sb) >= 4 * (A.SQRT_BITS_TOP - 6) and set(r for _, r in sb) == {1, 3, 5, 7},
+                "Tonelli-Shanks: primes of every size in every class mod 8 expected (%d)" % len(sb))
+    mt = d.get("mr_table_sizes", set())
+    sizes = set(b + x for b in P.MR_TABLE for x in (-1, 0, 1))
+    for kind in ("prime", "composite"):
+        ctx.require(set(s for k, s in mt if k == kind) >= sizes, "Miller-Rabin table boundaries: %ss of the sizes %s missing"
+                    % (kind, sorted(sizes - set(s for k, s in mt if k == kind))))
+    for cfg in ("default",) + S.CONFIGS:
+        ctx.require(any(c[0] == "tpp" and c[1] == "prime" and c[2] and c[3] == "prime" and c[-1] == cfg for c in pc),
+                    "no large prime was accepted under configuration %s" % cfg)
+    ctx.require(any(c[0] == "isPrime" and c[1] == "composite" and not c[2] for c in pc) and
+                ctx.acc.n.get("prim_isprime_fpp", 0) > 0, "isPrime(false_positive_prob=...) was not exercised")
 
 
 def replay(case, acc):
